@@ -32,6 +32,8 @@ type c03prog struct {
 	Final  bool
 	Settle string // AB (A first, then B), BA, par (both concurrently)
 	Sub    bool   // open a sub-channel, pay inside, finalise it, withdraw it into the parent
+	Agree  [2]int64 // funding agreement different from the initial balances (zero value: none)
+	SubRej bool     // a sub-channel proposal that the peer rejects, then one more payment
 }
 
 func (p c03prog) name() string {
@@ -53,6 +55,12 @@ func (p c03prog) name() string {
 	if p.Sub {
 		n += "/sub"
 	}
+	if p.Agree != [2]int64{} {
+		n += fmt.Sprintf("/agree=%d.%d", p.Agree[0], p.Agree[1])
+	}
+	if p.SubRej {
+		n += "/subrej"
+	}
 	return n
 }
 
@@ -64,6 +72,10 @@ func (p c03prog) expect() [2]int64 {
 			b[s.From] -= s.Amt
 			b[1-s.From] += s.Amt
 		}
+	}
+	if p.SubRej && b[0] >= 1 { // after the rejected sub-channel proposal A pays 1
+		b[0]--
+		b[1]++
 	}
 	if p.Sub { // sub-channel (min(2,a), min(2,b)); inside, A pays 1 to B if it can
 		sa := min(2, b[0])
@@ -148,7 +160,11 @@ func c03exec(t *testing.T, ssc schedrun.Scenario, o vsched.Options) (*vsched.Sch
 		}
 		w.P[0].OnUpdate, w.P[1].OnUpdate = decider(&decA), decider(&decB)
 		vsched.StartExploration()
-		ca, cb, err := w.OpenLedger(0, 1, pr.Bal[0], pr.Bal[1])
+		var popts []client.ProposalOpts
+		if pr.Agree != [2]int64{} {
+			popts = append(popts, client.WithFundingAgreement(channel.Balances{{big.NewInt(pr.Agree[0]), big.NewInt(pr.Agree[1])}}))
+		}
+		ca, cb, err := w.OpenLedger(0, 1, pr.Bal[0], pr.Bal[1], popts...)
 		if err != nil {
 			obs.errs = append(obs.errs, "open: "+err.Error())
 			return
@@ -161,6 +177,38 @@ func c03exec(t *testing.T, ssc schedrun.Scenario, o vsched.Options) (*vsched.Sch
 			k := classify(err)
 			if (k == "ok") != st.Accept || (k != "ok" && k != "rejected") {
 				obs.errs = append(obs.errs, fmt.Sprintf("payment %d: %s", i, k))
+			}
+		}
+		if pr.SubRej {
+			// B's user rejects the sub-channel proposal; the parent must stay usable
+			w.P[1].OnProposal = func(p *Party, cp client.ChannelProposal, r *client.ProposalResponder) {
+				c, cancel := context.WithTimeout(context.Background(), 5*time.Second)
+				defer cancel()
+				if err := r.Reject(c, "no sub-channel"); err != nil {
+					p.HandlerErrs = append(p.HandlerErrs, "reject proposal: "+err.Error())
+				}
+			}
+			alloc := channel.NewAllocation(2, []wallet.BackendID{0}, w.Asset)
+			alloc.SetAssetBalances(w.Asset, []channel.Bal{big.NewInt(min(1, ca.State().Balances[0][0].Int64())), big.NewInt(0)})
+			prop, err := client.NewSubChannelProposal(ca.ID(), 60, alloc, w.P[0].nextNonce())
+			if err != nil {
+				obs.errs = append(obs.errs, "sub proposal: "+err.Error())
+				return
+			}
+			pctx, pcancel := context.WithTimeout(context.Background(), 20*time.Second)
+			_, err = w.P[0].C.ProposeChannel(pctx, prop)
+			pcancel()
+			if classify(err) != "rejected" {
+				obs.errs = append(obs.errs, "rejected sub-channel proposal returned: "+classify(err))
+			}
+			w.P[1].OnProposal = nil
+			if ca.State().Balances[0][0].Int64() >= 1 {
+				uctx, ucancel := context.WithTimeout(context.Background(), 20*time.Second)
+				err := ca.Update(uctx, pay(0, 1, false))
+				ucancel()
+				if err != nil {
+					obs.errs = append(obs.errs, "payment after the rejected sub-channel proposal: "+classify(err))
+				}
 			}
 		}
 		var subID channel.ID
@@ -265,6 +313,12 @@ func c03check(ssc schedrun.Scenario, s *vsched.Sched, o any) []schedrun.Verdict 
 	if pr.Sub {
 		site += "/sub"
 	}
+	if pr.Agree != [2]int64{} {
+		site += "/agree"
+	}
+	if pr.SubRej {
+		site += "/subrej"
+	}
 	var out []schedrun.Verdict
 	seen := map[string]bool{}
 	add := func(clause, format string, a ...any) {
@@ -302,8 +356,12 @@ func c03check(ssc schedrun.Scenario, s *vsched.Sched, o any) []schedrun.Verdict 
 		add("ledger-invariant", "the ledger's conservation checks failed: %v", obs.viol)
 	}
 	for i := 0; i < 2; i++ {
-		if obs.funded[i] != pr.Bal[i] {
-			add("funding-amount", "funding took %d from party %d, agreed %d", obs.funded[i], i, pr.Bal[i])
+		agreed := pr.Bal[i]
+		if pr.Agree != [2]int64{} {
+			agreed = pr.Agree[i]
+		}
+		if obs.funded[i] != agreed {
+			add("funding-amount", "funding took %d from party %d, agreed %d", obs.funded[i], i, agreed)
 		}
 	}
 	if !obs.lastOK {
@@ -315,8 +373,12 @@ func c03check(ssc schedrun.Scenario, s *vsched.Sched, o any) []schedrun.Verdict 
 		add("last-agreed-state", "last state both signed (v%d) has balances %v, the accepted updates give %v", obs.lastVer, obs.last, want)
 	}
 	for i := 0; i < 2; i++ {
-		if exp := 100 - pr.Bal[i] + obs.last[i]; obs.acct[i] != exp {
-			add("payout", "party %d ends with %d on the ledger, expected %d (= 100 - %d funded + %d in the last agreed state v%d)", i, obs.acct[i], exp, pr.Bal[i], obs.last[i], obs.lastVer)
+		agreed := pr.Bal[i]
+		if pr.Agree != [2]int64{} {
+			agreed = pr.Agree[i]
+		}
+		if exp := 100 - agreed + obs.last[i]; obs.acct[i] != exp {
+			add("payout", "party %d ends with %d on the ledger, expected %d (= 100 - %d funded + %d in the last agreed state v%d)", i, obs.acct[i], exp, agreed, obs.last[i], obs.lastVer)
 		}
 	}
 	if obs.held != 0 || obs.heldSub != 0 {
@@ -385,6 +447,13 @@ func c03programs(thorough bool) (all []c03prog, small []c03prog) {
 					}
 				}
 			}
+		}
+	}
+	// funding agreement different from the balances; a rejected sub-channel proposal
+	for _, final := range []bool{true, false} {
+		for _, st := range []string{"AB", "par"} {
+			all = append(all, c03prog{Bal: [2]int64{5, 5}, Pays: []payStep{{0, 1, true}}, Final: final, Settle: st, Agree: [2]int64{8, 2}})
+			all = append(all, c03prog{Bal: [2]int64{5, 5}, Pays: []payStep{{1, 3, true}}, Final: final, Settle: st, SubRej: true})
 		}
 	}
 	// sub-channel variants
